@@ -80,6 +80,23 @@ class World:
             a0 = interp.deref_all(args[0])
             if a0 is not None and a0[0] == 'futs':
                 return ('future', 'stream-next', a0)
+        # future / stream combinators (futures-util): kept symbolic, resolved when polled
+        if name.endswith('FutureExt::map') and len(args) == 2:
+            return ('future', 'mapped', args[0], args[1])
+        if name.endswith('FutureExt::then') and len(args) == 2:
+            return ('future', 'then', args[0], args[1])
+        if (name.endswith('StreamExt::fold') or name.endswith('TryStreamExt::try_fold')) and len(args) == 3:
+            a0 = interp.deref_all(args[0])
+            if a0 is not None and a0[0] == 'futs':
+                return ('future', 'stream-fold', a0, args[1], args[2])
+        if name.endswith('StreamExt::for_each') and len(args) == 2:
+            a0 = interp.deref_all(args[0])
+            if a0 is not None and a0[0] == 'futs':
+                return ('future', 'stream-fold', a0, UNIT, ('for_each', args[1]))
+        if name.endswith('StreamExt::collect') and len(args) == 1:
+            a0 = interp.deref_all(args[0])
+            if a0 is not None and a0[0] == 'futs':
+                return ('future', 'stream-collect', a0)
         if name in ('tokio::task::spawn::spawn', 'tokio::task::spawn', 'tokio::spawn', 'tokio::task::spawn::spawn_local', 'tokio::runtime::handle::Handle::spawn'):
             # a detached task: whatever it does happens after (and independently of) the handler's own return
             self.trace.append(('spawned-detached',))
@@ -127,6 +144,25 @@ class World:
             return UNIT
         if kind == 'ready':
             return f[2]
+        if kind in ('mapped', 'then'):
+            out = self.resolve(interp, f[2])
+            r = interp.call_closure(f[3], [out], 0)
+            return self.resolve(interp, r) if kind == 'then' else r
+        if kind in ('stream-fold', 'stream-collect'):
+            futs = f[2][1]
+            acc = f[3] if kind == 'stream-fold' else None
+            outs = []
+            while futs:
+                out = self.resolve(interp, futs.pop(0))
+                if kind == 'stream-collect':
+                    outs.append(out)
+                    continue
+                step = f[4]
+                if isinstance(step, tuple) and step and step[0] == 'for_each':
+                    self.resolve(interp, interp.call_closure(step[1], [out], 0))
+                else:
+                    acc = self.resolve(interp, interp.call_closure(step, [acc, out], 0))
+            return ('vec', outs) if kind == 'stream-collect' else acc
         if kind == 'stream-next':
             futs = f[2][1]
             if not futs:
@@ -140,6 +176,20 @@ class World:
                 return mk_option(r[3][0].v)
             raise Unmodelled('a stream of %r' % (nv[0] if nv else None,))
         return None
+
+
+def _resolve(self, interp, v):
+    """the output of a future value (awaited futures resolve at once in this model); a non-future is its own output"""
+    nv = interp.deref_all(v)
+    if nv is not None and nv[0] == 'future':
+        return self.poll(interp, None, nv)
+    if nv is not None and nv[0] == 'closure':
+        r = interp.poll_coroutine(('ref', Cell(nv)), 0)
+        return r[3][0].v
+    return v
+
+
+World.resolve = _resolve
 
 
 def build_value(facts, ty, leaf, depth=0):
